@@ -1443,14 +1443,32 @@ func runGatewayAny(c *rig.Ctx, pool *gwPool, raw json.RawMessage, record bool) b
 		fmt.Fprintln(os.Stderr, "bad gateway case:", err)
 		os.Exit(2)
 	}
+	pool.gw.CloseIdle() // corpus and replay cases start on a fresh client connection
 	v := runGatewayCase(c, pool, cs)
 	for _, row := range v.rows {
 		c.Count("gw.row:" + row)
+	}
+	if !v.ok {
+		lastClass = v.class
 	}
 	if !v.ok && record {
 		gwRecord(c, cs, v)
 	}
 	return v.ok
+}
+
+// gwStillFails: a failing gateway case is re-run twice in isolation (the case builds its clusters — and so every transport
+// to the upstreams — anew by itself; the kept-alive client connections are closed); false = it passed once: a hiccup.
+func gwStillFails(c *rig.Ctx, pool *gwPool, cs GCase, class string) bool {
+	for i := 0; i < 2; i++ {
+		pool.gw.CloseIdle()
+		time.Sleep(20 * time.Millisecond)
+		if w := runGatewayCase(c, pool, cs); w.ok || w.class != class {
+			c.Count("hiccup:" + class)
+			return false
+		}
+	}
+	return true
 }
 
 func runGatewayStream(c *rig.Ctx, pool *gwPool) {
@@ -1479,10 +1497,15 @@ func runGatewayStream(c *rig.Ctx, pool *gwPool) {
 			continue
 		}
 		class := v.class
+		if !gwStillFails(c, pool, cs, class) {
+			continue // a hiccup of the rig, not a property of the case
+		}
 		min := shrinkGCase(cs, func(x GCase) bool { w := runGatewayCase(c, pool, x); return !w.ok && w.class == class })
-		if w := runGatewayCase(c, pool, min); !w.ok {
-			gwRecord(c, min, w)
-			continue
+		if gwStillFails(c, pool, min, class) {
+			if w := runGatewayCase(c, pool, min); !w.ok {
+				gwRecord(c, min, w)
+				continue
+			}
 		}
 		gwRecord(c, cs, v)
 	}
